@@ -53,6 +53,34 @@ Proof.
 
 Qed.
 
+Lemma og_OBusSub : forall n L s a0 a1 a2 s1 sends e,
+  InvO L s -> wf_op n s (OBusSub a0 a1 a2) = true -> obj_step repaired s (OBusSub a0 a1 a2) = (s1, sends, e) ->
+  InvO (op_ids s (OBusSub a0 a1 a2) ++ L) s1 /\ Forall (Good (op_ids s (OBusSub a0 a1 a2) ++ L)) (flat_map send_msgs sends).
+Proof.
+  intros n L s a0 a1 a2 s1 sends e I Hw H.
+  cbn [wf_op] in Hw; try discriminate Hw; split_ands.
+  unfold obj_step, ok, fail in H.
+  brk_hyp H; inversion H; subst; clear H.
+  all: cbn [flat_map send_msgs app].
+  all: cbn [op_ids].
+  all: change (v_dict_brackets repaired) with false in *.
+  all: (split; [ try solve [inv_tac I] | try solve [constructor] ]).
+  all: try solve [ use_target L I; use_nodes L I; unfold pargroup_creation_cmd, group_creation_cmd, py_int in *;
+                   brk_eqs; bools; goods ].
+  all: try solve [ bools; brk_eqs; toks; match goal with G : get_buf _ _ = Some _ |- _ => use_buf L I G end;
+                   repeat match goal with G : get_buf _ _ = Some _ |- _ => use_buf L I G end;
+                   ions; brk_eqs; goods ].
+  all: try solve [ bools; brk_eqs; toks; match goal with G : get_bus _ _ = Some _ |- _ => use_bus L I G end; ions; brk_eqs; goods ].
+  all: apply Z.leb_le in P; apply Z.leb_le in Hw.
+  all: apply orb_false_iff in Heqb0; destruct Heqb0 as [Q1 Q2].
+  all: assert (R1 : a1 <= z) by (destruct (Z.gtb_spec a1 z); [discriminate | lia]).
+  all: assert (R2 : a2 + a1 <= z) by (destruct (Z.gtb_spec (a2 + a1) z); [discriminate | lia]).
+  all: destruct (io_bus _ _ I a0 b z0 Heqo Heqp0) as [c [Ec [Hc Kc]]].
+  all: rewrite Heqp in Ec; inversion Ec; subst c.
+  all: apply invO_add_bus; [inv_tac I | exact Hw | intros i Hi; apply known_r; apply Kc; lia].
+
+Qed.
+
 Lemma og_OBusSet : forall n L s a0 a1 a2 s1 sends e,
   InvO L s -> wf_op n s (OBusSet a0 a1 a2) = true -> obj_step repaired s (OBusSet a0 a1 a2) = (s1, sends, e) ->
   InvO (op_ids s (OBusSet a0 a1 a2) ++ L) s1 /\ Forall (Good (op_ids s (OBusSet a0 a1 a2) ++ L)) (flat_map send_msgs sends).
